@@ -34,6 +34,8 @@ type objIn struct {
 	pod      *corev1.Pod
 	policy   string
 	postSize int
+	// crd: ask for the replicas first (reaches crdCache.GetReplicas when the kind's GVR is already cached)
+	replicasFirst bool
 }
 
 type surf3 struct {
@@ -229,11 +231,15 @@ func (s *surf3) gen(idx int) *Input {
 			shownCR = obj
 		}
 		d.pod = ownedPod(g, idx, kind, "crd-xxx", g.pick("crd-xxx-0", "crd-xxx-3", "crd-xxx-x"), ns, d.policy, "")
+		d.replicasFirst = g.chance(0.5)
 		show["crd"] = map[string]interface{}{"name": d.crd.Name, "group": group, "kind": kind, "plural": plural, "versions": d.crd.Spec.Versions}
 		show["custom_resource"] = shownCR
 	}
 	if d.pod != nil {
 		show["exercising_pod"] = showPod(d.pod)
+	}
+	if d.kind == "crd" {
+		show["replicas_asked_first"] = d.replicasFirst
 	}
 	return &Input{Class: class, Op: "deliver-" + d.kind, Show: show, data: d}
 }
@@ -402,6 +408,9 @@ func (s *surf3) call(in *Input) (string, string) {
 			_ = ipam.AllocateSpecificIP(ko.KeyInDB, net.ParseIP("10.0.70.17"), floatingip.Attr{Policy: constant.ConvertReleasePolicy(d.policy)})
 		}
 		// a pod of a kind galaxy has not seen yet makes it walk every CRD in its lister
+		if d.replicasFirst && kerr == nil {
+			_, _, _ = e.plugin.VerifAppReplicas(ko)
+		}
 		other := ownedPod(nil, 0, "Job", "job-x", "job-x-0", d.pod.Namespace, "immutable", "")
 		_, _, err0 := e.plugin.Filter(other, e.nodes[:3])
 		_, _, err1 := e.plugin.Filter(d.pod, e.nodes[:5])
